@@ -3,6 +3,8 @@ import PoaVerif.Lemmas.FramePoa
 import PoaVerif.Model.Spec
 import PoaVerif.Props.C04
 import PoaVerif.Lemmas.Corollaries
+import PoaVerif.Lemmas.Quiet2.Effect
+import PoaVerif.Witness.Q3
 /-
   C13 — slashing/jailing and admin operations compose safely.
   FALSE of the code as stated (D4, D5 — witnesses are `C04.c04_D4_witness`, `C04.c04_D5_witness`: an admin
@@ -174,5 +176,57 @@ theorem c13_return_partial (s s' : App) (c c' : CSet) (ups : List (Nat × Int)) 
     (op : Nat) (v : Val) (hv : s.getVal op = some v) (hcand : hasCandEntry s v = true) :
     alookup v.key c' = some ((powerOf v.tokens : Nat) : Int) :=
   effect_pre s s' c c' ups hpre h hc op v hv hcand
+
+/-! ### along whole histories: punishments inside the envelope (`Lemmas/Quiet2`) -/
+
+/-- **C13, along whole histories with downtime jailing and double-sign evidence**: from every well-formed genesis, along
+    every quiet history in the wider sense (`QuietHistory2`) — in which x/slashing and x/evidence may punish: whoever
+    they jail was a live validator not re-weighted in the previous block, and the shape of what their BeginBlockers did
+    is the decidable `punShapeB` (the record is jailed, still bonded, possibly with fewer tokens; its index entries are
+    gone; nothing else moved) —: the run reaches its end, no block halts, CometBFT accepts every update list, and after
+    every block every jailed validator's query answer is 0 and CometBFT holds no entry under its key, while every live
+    validator sits in CometBFT's set with exactly `tokens / 10^6`.  The jailed validator starts unbonding in the block
+    of its punishment, stays queued for the unbonding period and remains as an unbonded record afterwards. -/
+theorem c13_history_partial (g : Genesis) (hw : g.wf = true) (bs : List Block) (hq : QuietHistory2 g bs) :
+    ∃ first steps, run genEnv g bs = some (first, steps, RunEnd.done) ∧ steps.length = bs.length ∧
+      ∀ st ∈ first :: steps,
+        (∀ v ∈ st.app.vals, v.jailed = true →
+          st.app.queryPower (some v.op) = some 0 ∧ alookup v.key st.comet = none ∧ v.status ≠ .bonded) ∧
+        (∀ v ∈ st.app.vals, Active v → alookup v.key st.comet = some ((powerOf v.tokens : Nat) : Int)) := by
+  obtain ⟨first, steps, h1, h2, _, hg, h5⟩ := quiet_history2 g hw bs hq
+  refine ⟨first, steps, h1, h2, ?_⟩
+  have key : ∀ (s : App) (c : CSet), G2 s c →
+      (∀ v ∈ s.vals, v.jailed = true → s.queryPower (some v.op) = some 0 ∧ alookup v.key c = none ∧ v.status ≠ .bonded) ∧
+      (∀ v ∈ s.vals, Active v → alookup v.key c = some ((powerOf v.tokens : Nat) : Int)) := by
+    intro s c g2
+    obtain ⟨hv, _⟩ := G2_views s c g2
+    constructor
+    · intro v hvm hj
+      rcases hv v hvm with ⟨ha, _, _⟩ | ⟨hcls, h2', h3'⟩
+      · rw [ha.2.1] at hj; cases hj
+      · refine ⟨h2', h3', ?_⟩
+        intro hb
+        rcases hcls with hu | hjl
+        · rw [hu.2.1] at hj; cases hj
+        · exact g2.noLeaving v hvm (Or.inr ⟨hjl, hb⟩)
+    · intro v hvm ha
+      have := g2.allCur v hvm ha
+      rw [this]; rfl
+  intro st hst
+  rcases List.mem_cons.mp hst with e | e
+  · rw [e]; exact key _ _ hg
+  · exact key _ _ (h5 st e).2
+
+/-- non-vacuity (kernel-checked, block by block): in the witness history `Q3` validator 3 misses three blocks and is
+    jailed by x/slashing's BeginBlocker of block 5 (slash fraction 0 in this genesis) — the block in which the admin also removes
+    validator 2 —; it unbonds, its unbonding period ends in block 7 and it stays as an unbonded jailed record; every
+    block is quiet in the wider sense -/
+example : quietBlock2B Witness.Q3.s3 Witness.Q3.c3 Witness.Q3.b4 = true := by decide
+example : quietBlock2B Witness.Q3.s4 Witness.Q3.c4 Witness.Q3.b5 = true := by decide
+example : quietBlock2B Witness.Q3.s6 Witness.Q3.c6 Witness.Q3.b7 = true := by decide
+example : Witness.Q3.c4 = [(0, 12), (1, 10), (2, 10), (3, 10)] ∧ Witness.Q3.c5 = [(0, 12), (1, 10)] ∧
+    (Witness.Q3.s5.getVal 3).map (fun v => (v.jailed, v.status, v.tokens)) = some (true, Status.unbonding, 10500000) ∧
+    (Witness.Q3.s7.getVal 3).map (fun v => (v.jailed, v.status)) = some (true, Status.unbonded) ∧
+    Witness.Q3.s7.getVal 2 = none := by decide
 
 end PoaVerif.Props.C13
